@@ -23,10 +23,12 @@ from harness.C07 import gen, oracle
 try:
     from tools.gen import wait as gen_wait
     from tools.gen import waitcb as gen_waitcb
+    from tools.gen import waitboot as gen_waitboot
     from tools.gen.csrc import ExtractError
 except ImportError:          # translator not present yet
     gen_wait = None
     gen_waitcb = None
+    gen_waitboot = None
 
     class ExtractError(Exception):
         pass
@@ -141,6 +143,7 @@ def run(ctx, only=None):
     broken = []
     cfg = None
     cbd = None
+    bootforms = {}
     wake = {}
     # ------------------------------------------------------------------ build
     try:
@@ -166,6 +169,13 @@ def run(ctx, only=None):
                 wake[k] = wake.get(k, 0) + 1
         except ExtractError as e:
             broken.append("translator tools/gen/waitcb.py: %s" % e)
+            ctx.broken.append(broken[-1])
+        # the boot.janet forms that cancel other tasks (cancel-all, wait-for-fibers, ev/gather, ev/with-deadline) as S-expressions
+        try:
+            bootforms = gen_waitboot.extract(tree)
+            ctx.gen("WaitBoot.lean", gen_waitboot.render(bootforms))
+        except ExtractError as e:
+            broken.append("translator tools/gen/waitboot.py: %s" % e)
             ctx.broken.append(broken[-1])
     # ------------------------------------------------------------------ (B, C) theorems
     if THEOREMS:
@@ -214,8 +224,11 @@ def run(ctx, only=None):
         d, n = sc.meta.get("dirt", "none"), sc.meta.get("nest", "none")
         if mode == "normal":
             return d != "r1"
-        if mode in ("early", "gc"):
-            return d == "none" and n in ("none", "try")
+        if mode == "gc":
+            # the collector's mark visit goes to fibers that LISTEN on a stream: scenarios with a stream wait (+ net/accept corpus)
+            return d == "none" and n in ("none", "try") and (sc.meta.get("A") in gen.STREAMY + ("accept",) or sc.meta.get("B") in ("read", "write"))
+        if mode == "early":
+            return d == "none" and n in ("none", "try") and sc.meta.get("abandon") not in ("gsib", "gpar")
         return d in ("none", "r3") and n in ("none", "try", "defer+try")
     items = [(s.id, s.janet()) for s in allsc if in_mode(s, "normal")]
     early_items = [(s.id, s.janet()) for s in allsc if in_mode(s, "early")]
@@ -267,6 +280,12 @@ def run(ctx, only=None):
         if sid in res and sid in res_gc and not s.thrs and s.meta.get("A") != "accept" and res[sid]["status"] == "ok":
             la = [l for l in res[sid]["lines"] if not l.startswith("K ")]
             lb = [l for l in res_gc[sid]["lines"] if not l.startswith("K ")]
+            if s.meta.get("abandon") in ("gsib", "gpar"):
+                # cancel-all visits the fiber TABLE in hash (address) order: the order in which the siblings are cancelled within one
+                # tick is not specified, so the logs are compared fiber by fiber
+                def per_fiber(ls):
+                    return sorted((l.split()[2], i, l) for i, l in enumerate(ls) if l[:2] in ("R ", "X ", "L "))
+                la, lb = [x[2] for x in per_fiber(la)], [x[2] for x in per_fiber(lb)]
             if la != lb or res_gc[sid]["status"] != "ok":
                 ngcdiff += 1
                 k = 0
@@ -343,6 +362,7 @@ def run(ctx, only=None):
         "listener_callbacks": {c["name"]: {"file": c["file"], "groups": [{"labels": g["ev"] + (["default"] if g["default"] else []),
                                                                             "calls": g["acts"]} for g in c["groups"]], "after_switch": c["post"]}
                                for c in (cbd["callbacks"] if cbd else [])},
+        "boot_forms": {k: gen_waitboot.show(v) for k, v in bootforms.items()} if gen_waitboot else {},
         "ev_callback_deliveries": ["%s:%s %s" % (f, fn, ev[0]) for f, fn, ev in (cbd["deliveries"] if cbd else [])],
         "random_scenarios": len(rnd), "deadline_scope_scenarios": len(dls), "corpus": len(corpus),
         "sleep_checks": sl_checked, "real_clock_sleeps": rn,
